@@ -68,7 +68,7 @@ pub fn f1_soup(rng: &mut Rng, name: &str) -> Def {
     let nskip = [0, 0, 1, 1, 2][rng.below(5)];
     for _ in 0..nskip {
         let text = if rng.chance(1, 2) {
-            rng.pick_str(&[" ", "[ \\n]+", "\\x20+", "[ \\t\\n]", "_+", "-", "//[a-c]*", "\\s+", "\\s", "[^a-zA-Z0-9]", "\\p{Zs}+", "#.", "\\W"]).to_string()
+            rng.pick_str(&[" ", "[ \\n]+", "\\x20+", "[ \\t\\n]", "_+", "-", "//[a-c]*", "\\s+", "\\s", "[^a-zA-Z0-9]", "\\p{Zs}+", "#.", "\\W", "#[ -~]*", ";[a-z ;]*"]).to_string()
         } else {
             rand_re(rng, &cfg, 1).render()
         };
@@ -214,6 +214,24 @@ pub fn f4_bytes(rng: &mut Rng, name: &str) -> Def {
                 }
                 def.push(Pat::new(PatKind::Regex, Lit::b(&data), 0));
             }
+            2 if rng.chance(1, 4) => {
+                // binary tags: single bytes around table-size boundaries, optionally behind a common prefix
+                let pool = [0x00u8, 0x01, 0x3F, 0x40, 0x7E, 0x7F, 0x80, 0x81, 0xBF, 0xC0, 0xFE, 0xFF];
+                let prefix: &[u8] = if rng.chance(1, 2) { b"" } else { b"t" };
+                let k = rng.range(3, 6);
+                let mut used: Vec<u8> = vec![];
+                while used.len() < k {
+                    let b = *rng.pick(&pool);
+                    if !used.contains(&b) {
+                        used.push(b);
+                    }
+                }
+                for b in used {
+                    let mut d = prefix.to_vec();
+                    d.push(b);
+                    def.push(Pat::new(PatKind::Token, Lit::b(&d), 0));
+                }
+            }
             2 if rng.chance(1, 3) => {
                 // byte-string literals that are truncated / mixed UTF-8, next to class patterns of the same length
                 let lit: &[u8] = *rng.pick(&[&b"\xE2\x82"[..], &b"\xF0\x9F\x98"[..], &b"\xC3\xA9\xFF"[..], &b"a\xE2\x82"[..], &b"\xC3\xA9"[..], &b"\xE2\x82\xE2\x82[\x80-\xBF]"[..], &b"\xFF\xFE"[..]]);
@@ -262,6 +280,32 @@ pub fn f5_look(rng: &mut Rng, name: &str) -> Def {
             def.push(Pat::regex(&format!("{pre}{mid}{post}"), 0));
         }
         assign_priorities(rng, &mut def);
+        def.normalize();
+        return def;
+    }
+    if rng.chance(1, 12) {
+        // a repetition whose repeated byte itself satisfies the trailing assertion (late accept + self loop)
+        def.family = "F5-loop-late".into();
+        let (body, look) = *rng.pick(&[("\\n", "(?m:$)"), ("x", "(?-u:\\B)"), ("[a-z]", "(?-u:\\B)"), ("[ \\n]", "(?m:$)"), ("-", "(?-u:\\B)")]);
+        def.push(Pat::regex(&format!("{body}+{look}"), 0).prio(8));
+        if rng.chance(1, 2) {
+            def.push(Pat::regex(&format!("{body}+"), 0).prio(3));
+        }
+        def.push(Pat::regex(rng.pick_str(&["[0-9]", "a", "[A-Z]+"]), 0).prio(4));
+        def.normalize();
+        return def;
+    }
+    if rng.chance(1, 10) {
+        // one pattern = a one-byte alternative | a longer alternative ending in an assertion; a weaker class for that byte
+        def.family = "F5-alt-look".into();
+        let one = rng.pick_str(&["x", ";", "q", "0"]);
+        let word = rng.pick_str(&["ab", "end", "rs", "k+"]);
+        let look = rng.pick_str(&["$", "\\z", "(?-u:\\b)", "(?m:$)"]);
+        def.push(Pat::regex(&format!("{one}|{word}{look}"), 0).prio(6));
+        def.push(Pat::regex(rng.pick_str(&["[a-z;]", "[a-z0-9;]", "[^ ]"]), 0).prio(1));
+        if rng.chance(1, 2) {
+            def.push(Pat::regex("[a-z]+", 0).prio(2));
+        }
         def.normalize();
         return def;
     }
@@ -545,8 +589,27 @@ pub fn f11_literal(rng: &mut Rng, name: &str) -> Def {
         }
     }
     // an unrelated second pattern so that "nothing else changes" is observable
-    if rng.chance(1, 2) {
-        def.push(Pat::regex("[0-9]+", 0).prio(1));
+    match rng.below(6) {
+        0 | 1 => {
+            def.push(Pat::regex("[0-9]+", 0).prio(1));
+        }
+        2 => {
+            // the same pattern text with and without the flag, in one definition
+            let t = rng.pick_str(&["[x-z]+", "select", "kms", "[j-l]s?"]);
+            def.push(Pat::regex(t, 0).prio(3));
+            def.push(Pat::regex(t, 0).prio(2).icase());
+        }
+        3 => {
+            let mut p = Pat::regex("[q-t]+", 0).prio(1);
+            p.ignore_case = rng.chance(1, 2);
+            def.push(p);
+        }
+        4 => {
+            // a str subpattern with cased letters referenced from an ignore(case) pattern
+            def.subpats.push(("word".into(), Lit::s(rng.pick_str(&["k+", "[a-z]+s", "ms|kg", "ſ?k"]))));
+            def.push(Pat::regex("=(?&word)", 0).prio(40).icase());
+        }
+        _ => {}
     }
     def.normalize();
     def
@@ -640,6 +703,19 @@ pub fn f8_reject(rng: &mut Rng, name: &str) -> (Def, &'static str) {
                 ("ab", "a[b-c]"), ("[a-z]{3}", "foo"), ("x*y", "xy"), ("a(?-u:\\b)", "a"), ("a$", "a"), ("(ab)+", "abab"),
                 ("[ab]+", "[bc]+"), ("fo+", "foo"), ("a.", "ab"),
             ];
+            if rng.chance(1, 5) {
+                // case-insensitive ASCII tokens whose fold includes non-ASCII characters (Kelvin sign, long s)
+                let (t, other) = *rng.pick(&[("k", "\u{212A}"), ("kelvin", "\u{212A}elvin"), ("ms", "m\u{17F}"), ("s", "\u{17F}"), ("ok", "o\u{212A}")]);
+                let pr = rng.range(2, 20);
+                def.push(Pat::token(t, 0).icase().prio(pr));
+                if rng.chance(1, 2) {
+                    def.push(Pat::token(other, 0).prio(pr));
+                } else {
+                    def.push(Pat::regex(other, 0).prio(pr));
+                }
+                def.normalize();
+                return (def, "ambiguity?");
+            }
             let (a, b) = *rng.pick(pairs);
             let pa = Pat::regex(a, 0);
             let mut pb = Pat::regex(b, 0);
@@ -822,6 +898,26 @@ pub fn f7_curated() -> Vec<Def> {
     // dot
     mk(true, vec![Pat::regex(".", 0).prio(1), Pat::regex("ab", 0)]);
     mk(false, vec![Pat::regex(".", 0).prio(1), Pat::regex("ab", 0)]);
+    // a large automaton: several Unicode categories (hundreds of states, several hundred distinct LUT masks)
+    mk(true, vec![Pat::regex("\\p{L}+", 0), Pat::regex("\\p{S}+", 0), Pat::regex("\\p{No}+", 0), Pat::regex("\\p{Ps}+", 0), Pat::regex("→#[g-k]+(?-u:\\b)", 0).prio(50), Pat::token("#", 0)]);
+    mk(true, vec![Pat::regex("\\p{L}+", 0), Pat::regex("\\p{S}+", 0), Pat::regex("\\p{No}+", 0), Pat::regex("\\p{Ps}+", 0),
+        Pat::regex("→#[\\u{100}-\\u{13F}\\u{180}-\\u{1BF}\\u{200}-\\u{23F}]", 0), Pat::regex("→#[g-k]+(?-u:\\b)", 0)]);
+    // a state that is a late accept AND loops on itself (assertion satisfied by the repeated byte itself)
+    mk(true, vec![Pat::regex("\\n+(?m:$)", 0), Pat::regex("a", 0), Pat::skip(" ")]);
+    mk(true, vec![Pat::regex("x+(?-u:\\B)", 0), Pat::regex("x", 0).prio(1), Pat::regex("[0-9]", 0)]);
+    mk(false, vec![Pat::regex("[a-z]+(?-u:\\B)", 0).prio(9), Pat::regex("[a-z]+", 0).prio(3), Pat::skip(" ")]);
+    // binary tag lexers: more than two edges in the root, the highest byte with an edge on a table-size boundary
+    mk(false, vec![Pat::new(PatKind::Token, Lit::b(b"\x00"), 0), Pat::new(PatKind::Token, Lit::b(b"\x01"), 0), Pat::new(PatKind::Token, Lit::b(b"\x02"), 0), Pat::new(PatKind::Token, Lit::b(b"\x7f"), 0), Pat::new(PatKind::Token, Lit::b(b"\x80"), 0)]);
+    mk(false, vec![Pat::new(PatKind::Token, Lit::b(b"\x01"), 0), Pat::new(PatKind::Token, Lit::b(b"\x3f"), 0), Pat::new(PatKind::Token, Lit::b(b"\x40"), 0), Pat::new(PatKind::Regex, Lit::b(b"[\x10-\x20]+"), 0)]);
+    mk(false, vec![Pat::new(PatKind::Token, Lit::b(b"a\x00"), 0), Pat::new(PatKind::Token, Lit::b(b"a\x7f"), 0), Pat::new(PatKind::Token, Lit::b(b"a\x7e"), 0), Pat::new(PatKind::Token, Lit::b(b"a\x30"), 0)]);
+    mk(false, vec![Pat::new(PatKind::Token, Lit::b(b"\xfe"), 0), Pat::new(PatKind::Token, Lit::b(b"\xff"), 0), Pat::new(PatKind::Token, Lit::b(b"\x81"), 0), Pat::new(PatKind::Token, Lit::b(b"\x80\x80"), 0), Pat::new(PatKind::Token, Lit::b(b"\x00"), 0)]);
+    // comment-style skips: one opening byte, then a class loop that contains the opening byte
+    mk(true, vec![Pat::skip("#[ -~]*"), Pat::regex("[a-z]+", 0), Pat::token("\n", 0)]);
+    mk(false, vec![Pat::skip(";[a-z ;]*"), Pat::regex("[0-9]+", 0), Pat::skip("\\n")]);
+    // a one-byte alternative next to a look-ahead alternative of the same pattern, plus a weaker pattern for that byte
+    mk(true, vec![Pat::regex("x|ab$", 0).prio(5), Pat::regex("[a-z]", 0).prio(1)]);
+    mk(true, vec![Pat::regex(";|end$", 0).prio(5), Pat::regex("[;,.]", 0).prio(1), Pat::regex("[a-z]+", 0).prio(2)]);
+    mk(false, vec![Pat::regex("q|rs(?-u:\\b)", 0).prio(7), Pat::regex("[a-z]", 0).prio(2), Pat::skip(" ")]);
     // an enum without any pattern at all (no leaves): every byte is an error
     {
         let mut d = Def::new("X", "F7", true);
